@@ -4,15 +4,51 @@
 package main
 
 import (
+	"os"
+	"os/exec"
+	"strings"
 	"time"
 
 	"verifharness/internal/hx"
 )
 
-func main() { hx.Main(run) }
+// The code under test starts goroutines of its own: a panic in one of them kills the process and
+// would leave the runner without any result. The top-level invocation therefore supervises a child
+// that does the work; if the child dies, the supervisor itself produces a result.json whose only
+// content is the crash (stack trace) as a failing observation.
+func main() {
+	if os.Getenv("PUBSUB_CHILD") == "" {
+		cmd := exec.Command(os.Args[0], os.Args[1:]...)
+		cmd.Env = append(os.Environ(), "PUBSUB_CHILD=1")
+		cmd.Stdout = os.Stdout
+		var errb strings.Builder
+		cmd.Stderr = &errb
+		if err := cmd.Run(); err == nil {
+			os.Stderr.WriteString(errb.String())
+			return
+		}
+		tail := errb.String()
+		if i := strings.Index(tail, "panic:"); i >= 0 {
+			tail = tail[i:]
+		} else if i := strings.Index(tail, "fatal error:"); i >= 0 {
+			tail = tail[i:]
+		}
+		if len(tail) > 1500 {
+			tail = tail[:1500]
+		}
+		os.Setenv("PUBSUB_CRASH", tail)
+	}
+	hx.Main(run)
+}
 
 func run(c *hx.Ctx) {
 	c.Imports = "Pubsub.Model Pubsub.Net Pubsub.Sub Pubsub.Run"
+	if crash := os.Getenv("PUBSUB_CRASH"); crash != "" {
+		c.Type, c.Agree = strings.ToLower(c.Prop)+"_case", strings.ToLower(c.Prop)+"_agree"
+		c.Failf(strings.ToLower(c.Prop)+"-process-crash", map[string]any{"kind": "process-crash", "seed": c.Seed, "n": c.N},
+			"the harness process died while running the implementation (seed %d, n %d): %s", c.Seed, c.N, crash)
+		return
+	}
 	switch c.Prop {
 	case "C27":
 		c27(c)
@@ -20,6 +56,8 @@ func run(c *hx.Ctx) {
 		c28(c)
 	case "C29":
 		c29(c)
+	case "C28BATCH":
+		c28Batch(c)
 	case "C28RELINK":
 		c.Type, c.Agree = "c28_case", "c28_agree"
 		for _, b := range relinkProbe(genKeys(c.Rng, 5), c.N) {
